@@ -133,6 +133,7 @@ def run(tier: str, rep: Report):
                      {"id": "future:all", "src": "from __future__ import division, print_function, unicode_literals, absolute_import, "
                                                  "with_statement, generator_stop, nested_scopes, generators, annotations\nx = 1\n"}]
             srcs += [{"id": f"sn:{i}:o{o}", "src": s, "mode": m, "optimize": o} for i, (m, s) in enumerate(df.SNIPPETS) for o in (0, 1, 2)]
+            srcs += [{"id": f"sh:{i}", "src": s, "mode": m, "shift_defs": 40} for i, (m, s) in enumerate(df.SNIPPETS) if m == "exec"]
             if tier == "thorough":
                 if not hasattr(rep, "_hypo"):
                     rep._hypo = corpus.hypothesmith_sources(3000, wd)
